@@ -73,17 +73,17 @@ unsigned MessageBase::extract_header(const f8String& from, char *len, char *mtyp
 
 	if ((result = extract_element(dptr, flen, tag, val)))
 	{
-		if (*tag != '8')
+		if (*tag != '8' || *(tag + 1))
 			return 0;
 		s_offset += result;
 		if ((result = extract_element(dptr + s_offset, flen - s_offset, tag, len)))
 		{
-			if (*tag != '9')
+			if (*tag != '9' || *(tag + 1))
 				return 0;
 			s_offset += result;
 			if ((result = extract_element(dptr + s_offset, flen - s_offset, tag, mtype)))
 			{
-				if (*tag != '3' || *(tag + 1) != '5')
+				if (*tag != '3' || *(tag + 1) != '5' || *(tag + 2))
 					return 0;
 				s_offset += result;
 			}
